@@ -132,21 +132,18 @@ def discharge(ob, timeout_ms=20000, use_cvc5=True, cross=False):
     if z3.is_true(z3.simplify(ob.goal)):
         ob.verdict, ob.backend, ob.time_s = "proved", "simplifier", time.time() - t0
         return ob
-    # 1. quick attempts from the hypotheses closest to the goal (relevance filter; sound: fewer assumptions)
-    if len(ob.pc) > 40 and not cross:
-        for depth, budget in ((1, 1500), (2, 3000)):
-            sub = relevant_pc(ob, depth)
-            if len(sub) >= len(ob.pc):
-                break
-            s1 = z3.Solver()
-            s1.set("timeout", budget)
-            for t in sub:
-                s1.add(t)
-            s1.add(z3.Not(ob.goal))
-            if s1.check() == z3.unsat:
-                ob.verdict, ob.backend, ob.time_s = "proved", "z3-" + z3.get_version_string(), time.time() - t0
-                ob.note = "relevance-filtered hypotheses (%d of %d, depth %d)" % (len(sub), len(ob.pc), depth)
-                return ob
+    # 1. sequence theory abstracted to EUF+LIA with instantiated axioms (sound, incomplete, fast)
+    if not cross:
+        try:
+            from .seqabs import abstract_check
+
+            r1 = abstract_check(ob.pc, ob.goal, min(timeout_ms, 8000))
+        except Exception as e:  # pragma: no cover - never let the pre-pass break a run
+            r1 = None
+            ob.note = "seqabs failed: %s" % str(e)[:80]
+        if r1 == "unsat":
+            ob.verdict, ob.backend, ob.time_s = "proved", "z3-" + z3.get_version_string() + " (sequence axioms instantiated, EUF+LIA)", time.time() - t0
+            return ob
     s = _mk_solver(ob, timeout_ms)
     r = s.check()
     ob.time_s = time.time() - t0
